@@ -32,7 +32,7 @@ def build_rtf(seed: int, feature: str | None = None, twin: bool = False):
     exp.images_claimed = True
     # every visible non-token string this writer puts into body text (footnote words, escapes); field instructions, bookmark names,
     # object data and font names are not visible text
-    exp.literals = ["1", "some words of a footnote, long enough to matter", "€", "é", "\U0001F600", "https://example.org/", "https://example.org/n"]
+    exp.literals = ["1", "some words of a footnote, long enough to matter", "€", "é", "\U0001F600", "https://example.org/", "https://example.org/n", "C:\\temp\\", "C", "temp"]
     if feature:
         exp.features.add(feature if not twin else feature + "#twin")
     risky = feature if not twin else None
@@ -51,6 +51,7 @@ def build_rtf(seed: int, feature: str | None = None, twin: bool = False):
     fn_rng = random.Random(f"rtf-footnotes:{seed}")
     esc_rng = random.Random(f"rtf-escapes:{seed}")
     tbl_rng = random.Random(f"rtf-rows:{seed}")
+    lit_rng = random.Random(f"rtf-literals:{seed}")
     pos = 0   # source page position (a blank page occupies a position)
     for p in range(n_pages):
         def w(cls, lo=1, hi=3):
@@ -213,6 +214,12 @@ def build_rtf(seed: int, feature: str | None = None, twin: bool = False):
             elif feature == "pict-hex-wrapped":
                 out.append("\\pard " + picture(wrapped=not twin) + "\\par\n")
         if p != n_pages - 1:
+            if feature is None and lit_rng.random() < 0.25:
+                # the page's last words are a Windows path ending in a backslash (escaped: \\), and the break follows at once
+                out.append("\\pard " + w("b", 1, 1)[0] + " C:\\\\temp\\\\")
+                out.append("\\page")
+                pos += 1
+                continue
             # a page break followed by a line end, a delimiter blank, or directly by the next control word
             brk = brk_rng.choice(["\\page\n", "\\page\n", "\\page ", "\\page"])
             out.append(brk)
